@@ -265,6 +265,7 @@ def generate(seed, run, tier="quick", overrides=None):
     steps = []
     n_slots = prng.choice([2, 4, 6])
     max_aborts = 0 if faultfree else prng.choice([0, 1, 2, 2])
+    helper_threads = prng.random() < 0.3
     aborts = 0
     # always start with something to rename
     steps.append(_gen_build(rng, spin_mode, 0))
@@ -351,6 +352,10 @@ def generate(seed, run, tier="quick", overrides=None):
             st["abort"] = {"kind": rng.choice(["kbi", "kbi", "mem"]),
                            "u": rng.random()}
             aborts += 1
+        elif helper_threads and rng.random() < 0.35:
+            # the step is issued from another caller thread (one thread runs at a time: the
+            # main thread waits for it) - the registry is shared by all threads of a process
+            st["thread"] = True
         steps.append(st)
     if overrides:
         params.update(overrides)
@@ -629,6 +634,23 @@ class C08Session:
     def do_step(self, st):
         op = st["op"]
         fn = getattr(self, "op_" + op.replace(".", "_"))
+        if st.get("thread") and "abort" not in st:
+            import threading
+            box = {}
+
+            def run():
+                try:
+                    box["r"] = fn(st)
+                except BaseException as exc:  # noqa: BLE001 - re-raised in the main thread
+                    box["e"] = exc
+            th = threading.Thread(target=run, name="sim-caller-2")
+            th.start()
+            th.join()
+            self.probes["steps_in_helper_thread"] = \
+                self.probes.get("steps_in_helper_thread", 0) + 1
+            if "e" in box:
+                raise box["e"]
+            return box["r"]
         return fn(st)
 
     def op_build(self, st):
